@@ -57,7 +57,7 @@ def run_inproc(files, flags, *, format_command=None, block_black=False, pyprojec
     base = Path(workdir or tempfile.mkdtemp(prefix=f"ip{next(_counter)}-", dir=os.environ.get("VERIF_TMP") or "/var/tmp"))
     base.mkdir(parents=True, exist_ok=True)
     res = {"tests": [], "module_exc": [], "R": {}, "session_exc": None, "reported": [], "snapshots": [],
-           "replacements": {}, "new_code": {}, "files": {}, "warnings": [], "problems": [], "dir": str(base)}
+           "replacements": {}, "new_code": {}, "raw_new_code": {}, "read_text": {}, "files": {}, "warnings": [], "problems": [], "dir": str(base)}
     old_config = _config.config
     _config.config = _config.Config()
     _config.config.format_command = format_command
@@ -139,6 +139,17 @@ def run_inproc(files, flags, *, format_command=None, block_black=False, pyprojec
                         ((r.range.start.lineno, r.range.start.col_offset), (r.range.end.lineno, r.range.end.col_offset), r.text)
                         for r in f.replacements)
                     res["new_code"][nm] = f.new_code()
+                    # the same without any formatter: what asttokens.util.replace produces
+                    import inline_snapshot._rewrite_code as _rc
+                    saved = (_rc.format_code, _rc.enforce_formatting)
+                    _rc.format_code = lambda text, filename: text
+                    _rc.enforce_formatting = lambda: True
+                    try:
+                        res["raw_new_code"][nm] = f.new_code()
+                    finally:
+                        _rc.format_code, _rc.enforce_formatting = saved
+                    with open(f.filename, encoding="utf-8", newline="") as fh:   # no newline translation (as SourceFile.new_code)
+                        res["read_text"][nm] = fh.read()
                 rec.fix_all()
             except BaseException as e:  # noqa
                 res["session_exc"] = _summ_exc(e)
